@@ -164,11 +164,13 @@ fn create_builtins<C: ContentAddrStore>(mut state: UnsealedState<C>) -> Unsealed
             .pools
             .insert(PoolKey::new(Denom::Mel, Denom::Erg), def)
     }
+    // ERG/SYM was an ordinary pool before TIP-902: it may already exist and have been emptied by its liquidity holders, and an
+    // empty pool cannot serve the pegging and subsidy steps (they divide by its reserves), so it is seeded like an absent one
     if state.tip_902()
-        && state
-            .pools
-            .get(&PoolKey::new(Denom::Erg, Denom::Sym))
-            .is_none()
+        && match state.pools.get(&PoolKey::new(Denom::Erg, Denom::Sym)) {
+            None => true,
+            Some(pool) => pool.liqs == 0,
+        }
     {
         state
             .pools
